@@ -119,6 +119,7 @@ class Execution:
         self.trace = []           # resolver-visible events: ("invoke", path, args)
         self.visited = []         # (path, parent type name, field name, field type) of every resolved field
         self.introspection = introspection
+        self.ambiguous = []       # response paths whose merged field nodes disagree on field name / arguments
 
     # -- 6.4.2 ResolveFieldValue ------------------------------------------------------------
     def resolve(self, object_type, parent, field_def, args, path):
@@ -149,6 +150,8 @@ class Execution:
         out = OrderedDict()
         for key, nodes in grouped.items():
             name = nodes[0].name.value
+            if len({(n.name.value, tuple(sorted((a.name.value, _print(a.value)) for a in n.arguments))) for n in nodes}) > 1:
+                self.ambiguous.append(path + (key,))
             if name == "__typename":
                 out[key] = object_type.name
                 continue
@@ -207,6 +210,11 @@ class Execution:
 
 
 INTROSPECTION = object()
+
+
+def _print(value_node):
+    from py_gql.lang import print_ast
+    return print_ast(value_node)
 
 
 class FieldError(Exception):
